@@ -78,6 +78,12 @@ CLAIMS = {
          "machines (where unit offsets differ from indices) equal the same reference; and the registration data written by deepRegister/wideRegister "
          "agree with those indices by value. Shapes beyond the bound are covered only through the uniformity of the metafunctions.",
          "type-level static_assert witnesses decided by clang -fsyntax-only + class-hierarchy facts from the extractor (static analysis)"),
+ "C20": ("Decides that every float/double handed out is in [0,1) (known-bits argument on the reinterpreted bit pattern: sign 0, exponent = bias, mantissa = "
+         "top bits of the integer draw; or the exact-scaling idiom), that the seeding draw rejects zero and fills all four state words, that generator "
+         "members touch nothing but their own state, and that the next-state / output maps of splitmix64/32, xoshiro256+/128+/256**/128** and their "
+         "jump() (tables, bounds, body) equal the published algorithms: both sides are symbolically evaluated to canonical terms over the input "
+         "state (xor/shift/rotate exact, + and * commutative uninterpreted) from the extractor's ASTs — HFSM2's and the vendored reference sources'.",
+         "symbolic term evaluation + canonical-form equality against vendored references, known-bits reasoning (static analysis)"),
  "C12": ("Decides tie-breaking operators (left half kept on ties), the utility composition formulas of nested composite / orthogonal regions as expression "
          "shape, same-kind delegation of reports on the way down, rank masking, the shape of the cumulative walk (skip iff cursor >= utility, one rng.next() "
          "per resolution, rng.next called nowhere else, the arrays walked are the arrays summed), that the walk cannot return none, and the anonymous-head "
